@@ -47,6 +47,7 @@ class Env:
         self.vars = dict(vars or {})
         self.parent = parent
         self.module = module
+        self.global_names = None      # names declared `global` in this function scope (set, shared by copies)
 
     def lookup(self, name):
         e = self
@@ -57,7 +58,9 @@ class Env:
         raise KeyError(name)
 
     def copy(self):
-        return Env(self.vars, self.parent.copy() if self.parent else None, self.module)
+        e = Env(self.vars, self.parent.copy() if self.parent else None, self.module)
+        e.global_names = self.global_names
+        return e
 
 
 def _copy_heap_obj(o):
@@ -76,6 +79,7 @@ class State:
         self.heap = {}
         self.pc = []
         self.ghost = {}
+        self.globals = {}      # (module name, variable) -> value of module-level variables written through `global`
 
     def snapshot(self):
         s = State()
@@ -83,11 +87,12 @@ class State:
         s.heap = {k: _copy_heap_obj(v) for k, v in self.heap.items()}
         s.pc = list(self.pc)
         s.ghost = dict(self.ghost)
+        s.globals = dict(self.globals)
         return s
 
     def restore(self, snap):
         c = snap.snapshot()
-        self.env, self.heap, self.pc, self.ghost = c.env, c.heap, c.pc, c.ghost
+        self.env, self.heap, self.pc, self.ghost, self.globals = c.env, c.heap, c.pc, c.ghost, c.globals
 
     def alloc(self, obj, hint=""):
         r = Ref(hint)
@@ -378,6 +383,8 @@ class Interp:
                 break
             e = e.parent
         if mod is not None:
+            if (mod.name, name) in st.globals:
+                return st.globals[(mod.name, name)]
             v = self.module_attr(st, mod, name, missing=KeyError)
             if v is not KeyError:
                 return v
@@ -476,6 +483,9 @@ class Interp:
                 elif isinstance(stn, ast.Assign) and len(stn.targets) == 1 and isinstance(
                         stn.targets[0], ast.Name) and stn.targets[0].id == name and not want_setter:
                     found = (stn.value, "classattr", c)
+                elif isinstance(stn, ast.AnnAssign) and isinstance(stn.target, ast.Name) and stn.target.id == name \
+                        and stn.value is not None and not want_setter:
+                    found = (stn.value, "classattr", c)        # annotated class attribute / dataclass field default
             if found:
                 return found
             work = list(c.bases) + work
@@ -653,6 +663,14 @@ class Interp:
             return a + b
         if isinstance(a, str) and opname == "Mod":
             return Opaque("str%")
+        if opname == "Mult" and (isinstance(a, str) or isinstance(b, str)):
+            s_, k_ = (a, b) if isinstance(a, str) else (b, a)
+            if isinstance(k_, int) and not isinstance(k_, bool):
+                return s_ * k_
+            if is_sym(k_) and z3.is_int(k_):
+                return Opaque("str*")         # repetition of a string a symbolic number of times: some string
+        if isinstance(a, Opaque) and a.what.startswith(("str", "fstring")) and isinstance(b, (str, Opaque)) and opname == "Add":
+            return Opaque("str+")
         if isinstance(a, (tuple, list)) and isinstance(b, (tuple, list)) and opname == "Add":
             return tuple(a) + tuple(b) if isinstance(a, tuple) else st.alloc(list(a) + list(b))
         if isinstance(a, (tuple, list)) and isinstance(b, int) and opname == "Mult":
@@ -1073,14 +1091,23 @@ class Interp:
             st.ghost["__yield_sink__"] = sink
         try:
             self.exec_block(fv.node.body, st)
+            self._expose_locals(st)
             return sink if is_gen else None
         except ReturnSig as r:
+            self._expose_locals(st)
             return sink if is_gen else r.value
         finally:
             self.depth -= 1
             st.env = old
             if is_gen:
                 st.ghost["__yield_sink__"] = prev_sink
+
+    def _expose_locals(self, st):
+        """contract option "expose_locals": the local variables of the function under verification at its normal exit are kept
+        as ghost state (postconditions may then speak about, e.g., the previous iterate of a solver)"""
+        ctx = self.ctx
+        if self.depth == 1 and ctx is not None and getattr(ctx, "contract", None) is not None and ctx.contract.options.get("expose_locals"):
+            st.ghost["locals"] = dict(st.env.vars)
 
     # ------------------------------------------------------------------ statements
     def exec_block(self, body, st):
@@ -1115,7 +1142,11 @@ class Interp:
                 st.env.vars[a.asname or a.name] = self.lib.lookup(mod + "." + a.name)
 
     def ex_Global(self, node, st):
-        raise Unsupported("global statement")
+        # the names refer to the module-level variables of the function's module from here on: reads fall through to
+        # State.globals / the module's initial assignment (lookup), writes go to State.globals (assign)
+        if st.env.global_names is None:
+            st.env.global_names = set()
+        st.env.global_names.update(node.names)
 
     def ex_Nonlocal(self, node, st):
         raise Unsupported("nonlocal statement")
@@ -1310,6 +1341,12 @@ class Interp:
 
     def assign(self, st, target, v):
         if isinstance(target, ast.Name):
+            if st.env.global_names and target.id in st.env.global_names:
+                mod = self.cur_module(st)
+                if mod is None:
+                    raise Unsupported("global statement outside a repository module")
+                st.globals[(mod.name, target.id)] = v
+                return
             st.env.vars[target.id] = v
         elif isinstance(target, (ast.Tuple, ast.List)):
             vals = self.iterate(st, v)
